@@ -236,7 +236,9 @@ def apply_op(store: TS.TokenStore, exp: list[TS.Token], op: list) -> tuple[list[
 def build(init: list[str], route: str = 'from_tokens') -> tuple[TS.TokenStore, list[TS.Token]]:
     toks = [tok(c) for c in init]
     if route == 'from_tokens':
-        store = TS.TokenStore.from_tokens(list(toks))
+        given = list(toks)
+        store = TS.TokenStore.from_tokens(given)
+        given.clear()           # the caller's list is the caller's: the store must not depend on it afterwards
     else:
         store = TS.TokenStore()
         if toks:
